@@ -1,9 +1,13 @@
 (* PropC03.v — property C03: parameter-based retrace. *)
-From PG Require Import Base Mapping Spec Mapper MapperProofs.
+From PG Require Import Base Mapping Spec Mapper CacheWriter CacheReader MapperProofs WriterInv CacheProofs.
 
 Theorem C03_mapper : forall rs c m p, wf_class_names rs = true ->
   m_remap_frame_params (build true rs) c m p = Sparams rs c m p.
 Proof. exact mapper_params. Qed.
+
+Theorem C03_cache : forall rs c m p, dom32 rs = true -> sizes_ok rs = true ->
+  c_remap_frame_params (C rs) c m p = Sparams rs c m p.
+Proof. intros rs c m p Hd Hs. apply cache_params; assumption. Qed.
 
 (* what the specification guarantees: answers come from pairwise distinct (obf, args, orig) keys,
    never from inlined callees, cover every non-inlined entry with that name and arguments, and
